@@ -273,7 +273,7 @@ def run_scenario_bounded(pid, scenario_path, limit_s):
 def replay_file(mod, pid, path, quiet=False):
     with open(path) as f:
         rep = json.load(f)
-    if rep.get("clause", "").endswith(".hang") and not os.environ.get("DST_REPLAY_INNER"):
+    if rep.get("clause", "").endswith(".noreturn") and not os.environ.get("DST_REPLAY_INNER"):
         limit = float(rep.get("facts", {}).get("limit_s", getattr(mod, "HANG_S", 120)))
         out = run_scenario_bounded(pid, path, limit)
         if out == "hang":
@@ -460,7 +460,7 @@ def main_check(pid, argv=None):
         for idx in cands[:32]:
             seed_i = derive_seed(args.seed, pid, idx)
             scen = mod.generate(seed_i, tier, idx)
-            path = write_replay(pid, seed_i, idx, tier, scen, f"{pid}.hang",
+            path = write_replay(pid, seed_i, idx, tier, scen, f"{pid}.noreturn",
                                 f"run {idx} does not finish within {limit:.0f} s of wall-clock time (a worker executing it was killed at its limit)",
                                 "", {"limit_s": limit, "hang": True}, None)
             if run_scenario_bounded(pid, path, limit) == "hang" and run_scenario_bounded(pid, path, limit) == "hang":
@@ -469,7 +469,7 @@ def main_check(pid, argv=None):
             os.remove(path)
         if hang_reports:
             idx, seed_i, path = hang_reports[0]
-            print(f"violation clause={pid}.hang run_index={idx} seed={seed_i} (unminimised: every probe of a non-terminating scenario costs the full bound)")
+            print(f"violation clause={pid}.noreturn run_index={idx} seed={seed_i} (unminimised: every probe of a non-terminating scenario costs the full bound)")
             print(f"  detail: the scenario does not finish within {limit:.0f} s of wall-clock time in a fresh process (twice); ordinary runs of this check take milliseconds to seconds")
             print(f"VIOLATION property={pid} replay={path}")
             exit_code = 1
